@@ -14,12 +14,15 @@ static struct model {
     uint8_t out[KMAX / 8];            /* outstanding observations (bitmap) */
     uint16_t nout;
     uint8_t first_frame_seen;
+    uint8_t last_fresh;               /* last_rec was recorded by a new observation and no Query has been answered since */
+    uint8_t reobs;                    /* a delivered station was observed again; until the next Query no further new observations (keeps the closure linear in k) */
+    uint16_t last_rec;                /* index of the most recently recorded observation + 1 (0 = none since the last Reset) */
     uint8_t icon_cached;              /* C19: a QueryLargeTlv(icon) retained a block since the last Reset (observed, not assumed) */
 } M;
 
-enum { E_OBSNEW, E_DUP_OLD, E_DUP_NEW, E_OTHER, E_OTHER2, E_QUERY, E_QUERY_BR, E_QUERY_HI, E_RESET0, E_RESET1, E_DISC, E_QLT_ICON, E_QLT_NAME,
+enum { E_OBSNEW, E_DUP_OLD, E_DUP_NEW, E_REOBS_LAST, E_OTHER, E_OTHER2, E_QUERY, E_QUERY_BR, E_QUERY_HI, E_RESET0, E_RESET1, E_DISC, E_QLT_ICON, E_QLT_NAME,
        E_QLT_HWID, E_EMIT, E_NEV };
-static const char *ENAME[] = {"ObsNew", "ProbeDup(oldest)", "ProbeDup(newest)", "ProbeForPEER", "TrainForPEER(eth dst OWN)", "Query(M1,seq=1)", "Query(M2 via BR,seq=0xFFFE)",
+static const char *ENAME[] = {"ObsNew", "ProbeDup(oldest)", "ProbeDup(newest)", "Probe again from the most recently recorded station", "ProbeForPEER", "TrainForPEER(eth dst OWN)", "Query(M1,seq=1)", "Query(M2 via BR,seq=0xFFFE)",
                               "Query(M1,seq=0x0203)", "Reset(tos0)", "Reset(tos1)", "Discover(M1)", "QueryLargeTlv(icon)", "QueryLargeTlv(name)", "QueryLargeTlv(hwid)", "Emit(1)"};
 
 static int has(int k) { return (M.out[k >> 3] >> (k & 7)) & 1; }
@@ -112,9 +115,10 @@ static void apply(int ev) {
     switch (ev) {
         case E_OBSNEW:
             if (mode == 19) { send_obs(nodes19(), 1); allowed_retain = 1; break; }   /* generator index = number of retained observation nodes, read from the ledger */
-            { int k = lowest_free(); send_obs(k, 1); setb(k, 1); M.nout++; allowed_retain = 1; break; }
+            { int k = lowest_free(); send_obs(k, 1); setb(k, 1); M.nout++; M.last_rec = (uint16_t)(k + 1); M.last_fresh = 1; allowed_retain = 1; break; }
         case E_DUP_OLD: send_obs(mode == 19 ? 0 : oldest(), 1); allowed_retain = (mode == 19); break;
         case E_DUP_NEW: send_obs(mode == 19 ? (nodes19() ? nodes19() - 1 : 0) : newest(), 1); allowed_retain = (mode == 19); break;
+        case E_REOBS_LAST: { int k = M.last_rec - 1; send_obs(k, 1); if (!has(k)) { setb(k, 1); M.nout++; M.reobs = 1; } allowed_retain = 1; break; }   /* already delivered: a new observation; still outstanding: a duplicate */
         case E_OTHER: send_obs(KMAX - 2, 0); break;
         case E_OTHER2: { /* real destination PEER although the Ethernet destination is ours */
             uint8_t f[64]; uint8_t real[6], eth[6]; obs_addr(KMAX - 1, real, eth);
@@ -123,7 +127,7 @@ static void apply(int ev) {
         case E_QUERY: q = ev_query(0, ST_M1, ST_M1, 1); is_query = 1; break;
         case E_QUERY_BR: q = ev_query(0, ST_M2, ST_BR, 0xFFFE); is_query = 1; break;
         case E_QUERY_HI: q = ev_query(0, ST_M1, ST_M1, 0x0203); is_query = 1; break;
-        case E_RESET0: { pev e = ev_reset(0, ST_M1); drv_linux(&e, 0); memset(M.out, 0, sizeof M.out); M.nout = 0; break; }
+        case E_RESET0: { pev e = ev_reset(0, ST_M1); drv_linux(&e, 0); memset(M.out, 0, sizeof M.out); M.nout = 0; M.last_rec = 0; M.reobs = 0; M.last_fresh = 0; break; }
         case E_RESET1: { pev e = ev_reset(1, ST_M1); drv_linux(&e, 0); break; }
         case E_DISC: { pev e = ev_discover(0, ST_M1, ST_M1, 0x1234, 1); drv_linux(&e, 0); break; }
         case E_QLT_ICON: { pev e = ev_qlt(0, ST_M1, ST_M1, 5, 0x0E, 0); drv_linux(&e, 0); allowed_retain = 1; break; }
@@ -131,7 +135,12 @@ static void apply(int ev) {
         case E_QLT_HWID: { pev e = ev_qlt(0, ST_M1, ST_M1, 5, 0x13, 0); drv_linux(&e, 0); break; }
         case E_EMIT: { pev e = ev_emit1(0, ST_M1, ST_M1, 7, 1, 0, ST_S0, ST_PEER); drv_linux(&e, 0); break; }
     }
-    if (is_query) { drv_linux(&q, 0); if (mode == 7 || mode == 2) { int sup = vf_suppress; if (mode == 2) vf_suppress = 1; oracle_query(&q); vf_suppress = sup; } }
+    int had_last = is_query && M.last_rec && has(M.last_rec - 1);
+    if (is_query) { M.reobs = 0; drv_linux(&q, 0); if (mode == 7 || mode == 2) { int sup = vf_suppress; if (mode == 2) vf_suppress = 1; oracle_query(&q); vf_suppress = sup; } }
+    /* the 'most recently recorded station' is remembered only across the one partial Query that delivered it
+     * (then it is a function of the outstanding set and the closure stays linear in k) */
+    if (is_query && !(had_last && M.last_fresh && !has(M.last_rec - 1) && M.nout > 0)) M.last_rec = 0;
+    if (is_query) M.last_fresh = 0;
     if (mode == 2) { oracle_wellformed(0); if (tr_sends() > (is_query || ev == E_DISC || ev == E_QLT_ICON || ev == E_QLT_NAME || ev == E_QLT_HWID ? 1 : ev == E_EMIT ? 2 : 0)) vf_violation("unsolicited:counting-closure", "%s made the responder transmit %d frames", ENAME[ev], tr_sends()); }
     if (mode == 7 && !is_query && tr_sends() > 0 && ev != E_DISC && ev != E_QLT_ICON && ev != E_QLT_NAME && ev != E_QLT_HWID && ev != E_EMIT)
         vf_violation("observation-answered", "%s made the responder transmit", ENAME[ev]);
@@ -155,13 +164,16 @@ static void apply(int ev) {
 }
 
 static int enabled(int ev) {
-    if (mode == 19) return !(ev == E_QUERY_HI || ev == E_OTHER2 || ev == E_RESET1);   /* retention does not depend on sequence numbers */
-    if (ev == E_OBSNEW) return M.nout < klimit;
+    if (mode == 19) return !(ev == E_QUERY_HI || ev == E_OTHER2 || ev == E_RESET1 || ev == E_REOBS_LAST);   /* retention does not depend on sequence numbers */
+    if (ev == E_OBSNEW) return M.nout < klimit && !M.reobs;
     if (ev == E_DUP_OLD || ev == E_DUP_NEW) return M.nout > 0;
+    if (ev == E_REOBS_LAST) return M.last_rec > 0 && !M.reobs && !has(M.last_rec - 1) && M.nout < klimit;
     return 1;
 }
 static void ev_name(int ev, char *buf, size_t cap) { snprintf(buf, cap, "%s", ENAME[ev]); }
 static void root_setup(void) { memset(&M, 0, sizeof M); }
+static uint64_t dbg_hist[4][8];
+static void dbg_state(int depth) { (void)depth; int b = M.nout == 0 ? 0 : M.nout < 30 ? 1 : M.nout < 100 ? 2 : 3; int c = (M.last_rec ? 1 : 0) + (M.reobs ? 2 : 0) + ((M.last_rec && !has(M.last_rec - 1)) ? 4 : 0); dbg_hist[b][c]++; }
 
 /* ------------------------------------------------------------------ C19 pump
  * Directed long histories: every word of length <= L over a macro alphabet (Flood(n) = n fresh observations,
@@ -234,7 +246,7 @@ int main(int argc, char **argv) {
     measure_baseline();
     if (A.a > 0) klimit = (int)A.a;
     e1_cfg cfg = { .nev = E_NEV, .ev_name = ev_name, .apply = apply, .enabled = enabled, .root_setup = root_setup, .model = &M, .model_size = sizeof M,
-                   .deadline_s = A.deadline, .max_depth = mode == 19 ? 1400 : 0, .prune_on_violation = 1 };
+                   .deadline_s = A.deadline, .max_depth = mode == 19 ? 1400 : 0, .prune_on_violation = 1, .on_new_state = getenv("VF_DBG") ? dbg_state : NULL };
     pumpcfg = (e1_cfg){ .nev = 2000, .ev_name = pump_name, .apply = pump_apply, .root_setup = root_setup };
     if (A.replay) { A.verbose = 1; return e1_replay_file(pump ? &pumpcfg : &cfg, A.replay); }
     double t0 = vf_now_s();
@@ -256,6 +268,7 @@ int main(int argc, char **argv) {
             vf_extra("pump", "4096 generator steps, retention grew on %d of them", grew);
         }
     }
+    if (getenv("VF_DBG")) for (int b = 0; b < 4; b++) { for (int c = 0; c < 8; c++) fprintf(stderr, "%llu ", (unsigned long long)dbg_hist[b][c]); fprintf(stderr, "\n"); }
     R.states = st.states; R.transitions = st.transitions; R.evaluations = st.transitions; R.max_depth = st.max_depth;
     R.fixpoint = st.fixpoint; R.exhaustive = st.fixpoint; R.cap_hit = st.cap;
     vf_extra("pruned", "%llu successors of violating transitions not expanded", (unsigned long long)st.pruned);
